@@ -37,6 +37,11 @@ type elem struct {
 	ID  int    `json:"id"`
 	Tag string `json:"tag"`
 	Raw []byte `json:"raw"`
+	// fields that are absent from the JSON form when zero: a decoder that reuses
+	// old element memory would let stale values through
+	Opt     int            `json:"opt,omitempty"`
+	Waiters []int          `json:"waiters,omitempty"`
+	Marks   map[string]int `json:"marks,omitempty"`
 }
 
 type bufHook struct{ log *[]string }
@@ -138,6 +143,9 @@ func execBuf(c bufCase, _ *kit.Env) kit.Outcome {
 		switch op.K {
 		case "push":
 			e := elem{ID: op.A, Tag: op.S, Raw: []byte(op.S)}
+			if op.A%5 == 0 {
+				e.Opt, e.Waiters = op.A+1, []int{op.A}
+			}
 			can := buf.CanPush()
 
 			if can != (len(model) < c.Cap) {
@@ -226,9 +234,10 @@ func execBuf(c bufCase, _ *kit.Env) kit.Outcome {
 
 			if op.A == 1 {
 				// restore into a live buffer that already holds other content
-				nb = queueing.NewBuffer[elem]("Dirty", c.Cap+2)
-				nb.PushTyped(elem{ID: -3, Tag: "stale"})
-				nb.PushTyped(elem{ID: -4, Tag: "stale"})
+				nb = queueing.NewBuffer[elem]("Dirty", c.Cap+3)
+				nb.PushTyped(elem{ID: -3, Tag: "stale", Opt: 9, Waiters: []int{7, 8}, Marks: map[string]int{"old": 1}})
+				nb.PushTyped(elem{ID: -4, Tag: "stale", Opt: 8, Waiters: []int{6}, Marks: map[string]int{"old": 2}})
+				nb.PushTyped(elem{ID: -5, Tag: "stale", Opt: 7, Marks: map[string]int{"old": 3}})
 			}
 
 			if err := json.Unmarshal(raw, &nb); err != nil {
